@@ -59,6 +59,9 @@ var addrPool = []string{"/ip4/8.8.8.8/tcp/3003", "/ip6/2606:4700::1/tcp/443/http
 func genAddrs(t *rapid.T, max int) []string {
 	n := rapid.IntRange(0, max).Draw(t, "naddrs")
 	var out []string
+	if n == 0 && rapid.Bool().Draw(t, "emptynotnil") {
+		out = []string{} // present but empty, as opposed to absent
+	}
 	for i := 0; i < n; i++ {
 		out = append(out, rapid.SampledFrom(addrPool).Draw(t, "addr"))
 	}
